@@ -10,6 +10,7 @@ A spec is a JSON list of items
    "file": "src/pyunicorn/core/network.py",
    "func": "Network.newman_betweenness",       Class.method or function
    "target": "step",                           assigned name | "return" | "subscript:<arr>"
+                                               | "index:<arr>" | "sindex:<arr>" (stored-to subscript) | "call:<f>#<i>"
    "occurrence": 0,                            which matching statement (default 0)
    "params": [["N","Int"],["max_parts","Int"]],  free names of the expression, with Lean types
    "ret": "Int",                               Lean type of the result
@@ -99,6 +100,11 @@ def find_stmt(func, target, occurrence):
         elif target.startswith("index:") and isinstance(n, ast.Subscript) \
                 and dotted(n.value) == target[len("index:"):] \
                 and isinstance(n.ctx, ast.Load):
+            hits.append((n.lineno, n.slice))
+        elif target.startswith("sindex:") and isinstance(n, ast.Subscript) \
+                and dotted(n.value) == target[len("sindex:"):] \
+                and isinstance(n.ctx, ast.Store):
+            # index expression of a subscript that is assigned to (a[<idx>] = ...)
             hits.append((n.lineno, n.slice))
         elif target.startswith("call:") and isinstance(n, ast.Call) \
                 and dotted(n.func) == target[len("call:"):].split("#")[0]:
@@ -283,6 +289,7 @@ def translate_item(item, cache):
 
 
 HEADER = """/- GENERATED by translate/gen_arith.py from the current /repo working tree — do not edit. -/
+set_option linter.unusedVariables false
 namespace Pyunicorn.Generated.%s
 
 /-- `int(np.ceil(a / b))` on integers -/
